@@ -6,6 +6,7 @@ mod ctx;
 mod driver;
 mod interpose;
 mod net;
+mod raftsim;
 mod rng;
 mod sched;
 mod scenarios;
@@ -24,6 +25,7 @@ macro_rules! dispatch {
     ($prop:expr, $f:ident, $($arg:expr),*) => {
         match $prop {
             "C02" => driver::$f(scenarios::c02::C02, $($arg),*),
+            "C10" => driver::$f(scenarios::c10::C10, $($arg),*),
             other => {
                 eprintln!("HARNESS-ERROR unknown property {other}");
                 2
